@@ -53,7 +53,7 @@ RULE = ('complete sweep of %d matrix plans: (every supported and 7 '
         'values. Non-trivial: the request used an operation / attribute / '
         'version on the other side of a gate. Distinct = plan number.'
         % len(PLANS))
-PROBES = ['gated_operation_refused', 'unsupported_version_refused',
+PROBES = ['named_attribute_requests', 'gated_operation_refused', 'unsupported_version_refused',
           'discover_sublist', 'query_then_execute', 'tag_scan_frames',
           'gated_attribute_refused', 'response_version_echo',
           'aead_encrypt_answered']
@@ -303,6 +303,47 @@ def execute(plan):
                         flag('gated-attribute-had-effect', why=n,
                              version=ver)
                 results.append((n, it['status'], it['reason']))
+            # ... and in requests that NAME the attribute: an object that has
+            # Sensitive (stored under 1.4) and a policy name (stored under
+            # 1.2) is asked for them by name, and asked to change them,
+            # under this version
+            reg = gen.gen_register(ctx, (1, 4), 0, 'SymmetricKey')
+            reg['label'] = 'named'
+            reg['attrs'] = [a for a in reg['attrs'] if a['n'] not in (
+                'Sensitive', 'Operation Policy Name')] + [
+                gen.A('Sensitive', True),
+                gen.A('Operation Policy Name', 'default')]
+            send(reg, v=(1, 4), what='Register(named)')
+            for n in ('Sensitive', 'Operation Policy Name'):
+                newer = n in ATTR_SINCE and ver < ATTR_SINCE[n]
+                gone = n in ATTR_GONE and ver >= ATTR_GONE[n]
+                resp, before = send({'op': 'GetAttributes', 'uid': '@named',
+                                     'names': [n, 'State']},
+                                    what='GetAttributes[' + n + ']')
+                if resp is not None and resp.items and \
+                        resp.items[0]['status'] == 0:
+                    got = [a[0] for a in
+                           resp.items[0]['payload'].get('attrs') or []]
+                    probes['named_attribute_requests'] += 1
+                    if (newer or gone) and n in got:
+                        flag('attribute-outside-version-reported', why=n,
+                             version=ver, how='by name')
+                    results.append(('named', n, sorted(got)))
+                if n == 'Sensitive' and newer:
+                    for op in ({'op': 'ModifyAttribute', 'uid': '@named',
+                                'attr': gen.A('Sensitive', False)},
+                               {'op': 'DeleteAttribute', 'uid': '@named',
+                                'name': 'Sensitive'}):
+                        resp, before = send(op, what=op['op'] + '[' + n +
+                                            ']')
+                        if resp is None or not resp.items:
+                            continue
+                        if resp.items[0]['status'] == 0:
+                            flag('attribute-outside-version-accepted',
+                                 why=n, version=ver, how=op['op'])
+                        if W.dump() != before:
+                            flag('gated-attribute-had-effect', why=n,
+                                 version=ver, how=op['op'])
         elif plan['kind'] == 'discover':
             if ver < (1, 1):
                 resp, before = send({'op': 'DiscoverVersions',
